@@ -14,9 +14,9 @@ import (
 
 type verifRootFake struct{}
 
-func (n *verifRootFake) NodeRPC() *rpc.Client                 { return nil }
+func (n *verifRootFake) NodeRPC() *rpc.Client                  { return nil }
 func (n *verifRootFake) ContractBackend() bind.ContractBackend { return nil }
-func (n *verifRootFake) Kind() ethnode.NodeKind               { return ethnode.Geth }
+func (n *verifRootFake) Kind() ethnode.NodeKind                { return ethnode.Geth }
 func (n *verifRootFake) UserAgent() ethnode.UserAgent          { return ethnode.UserAgent{Kind: ethnode.Geth} }
 func (n *verifRootFake) Enode(ctx context.Context) (string, error) {
 	return "enode://" + verifapi.NodeID(0) + "@127.0.0.1:30303", nil
